@@ -37,7 +37,7 @@ def union_in_force(evs, kind, tau, default):
     return cur
 
 
-def q_merge(name, specs, same_key, wmax):
+def q_merge(name, specs, same_key, wmax, late_first=False):
     def fn(ctx):
         bs = []
         for k, sp in enumerate(specs):
@@ -50,8 +50,22 @@ def q_merge(name, specs, same_key, wmax):
         ksig_ticks = [e.t for b in bs for e in b.events if e.kind == KS]
         ctx.assume(and_([not_(eq(x, y)) for i, x in enumerate(ksig_ticks) for y in ksig_ticks[i + 1:]]))
         tau = ctx.int("tau", 0, (wmax + 1) * 8)
-        seqs = [rel_sequence([m.copy() for m in b.msgs]) for b in bs]
-        seqs2 = [rel_sequence([m.copy() for m in b.msgs]) for b in bs]
+        def mkseq(b):
+            if not late_first:
+                return rel_sequence([m.copy() for m in b.msgs])
+            # the same music as absolute messages, entered through the public API with the later note first
+            ms = []
+            for n in reversed(b.notes):
+                ms.append(on(n.ch, n.pitch, n.vel, time=n.start))
+                ms.append(off(n.ch, n.pitch, time=n.end))
+            for e in b.events:
+                m_ = e.m.copy()
+                m_.time = e.t
+                ms.append(m_)
+            ms.append(Message(message_type=INTERNAL, channel=0, time=b.total))
+            return abs_sequence(ms)
+        seqs = [mkseq(b) for b in bs]
+        seqs2 = [mkseq(b) for b in bs]
         seqs[0].merge(seqs[1:])
         out = seqs[0]
         er, dr = rel_events(raw_rel(out))
@@ -82,7 +96,7 @@ def q_merge(name, specs, same_key, wmax):
         ctx.must("order_independent", and_(multiset_eq([n.tup(velocity=False) for n in n1], [n.tup(velocity=False) for n in n2]),
                                            u1 == 0, u2 == 0, eq(dr, dr2)))
         return [obs_events(er, dr), obs_events(er2, dr2)]
-    return Query(f"{name}/{'same' if same_key else 'free'}/w{wmax}", fn,
+    return Query(f"{name}/{'same' if same_key else 'free'}/w{wmax}{'/late-first' if late_first else ''}", fn,
                  ["roll_is_union", "roll_is_union_abs", "alternates", "only_input_keys", "duration_is_max",
                   "time_signature_in_force", "key_signature_in_force", "signatures_are_input_events", "order_independent"],
                  desc=f"merge of {len(specs)} inputs ({name})")
@@ -94,6 +108,7 @@ def queries(tier, seed):
           q_merge("2+1", [A2, A1], True, min(w, 10)),
           q_merge("1+empty", [A1, EMPTY], True, w), q_merge("empty+1", [EMPTY, A1], True, w),
           q_merge("1+rest", [A1, REST], True, w), q_merge("rest+1", [REST, A1], True, w),
+          q_merge("2+1", [A2, A1], True, 6, late_first=True), q_merge("empty+2", [EMPTY, A2], True, 8, late_first=True),
           q_merge("ts+ts", [ATS, BTS], True, min(w, 8)), q_merge("ts+ts", [ATS, BTS], False, 4 if tier == "quick" else 6)]
     if tier == "thorough":
         qs += [q_merge("2o+1", [A2O, A1], False, 6), q_merge("1+1+1", [A1, A1, A1], True, 4),
